@@ -176,6 +176,9 @@ func c07HasToken(s, token string) bool {
 // The same label is part of the failure message, so that known_findings.json can match on it.
 func c07Class(c c07Case, p verifgen.HTMLPlanted) string {
 	switch {
+	case p.Elem == "[style]" && strings.Contains(p.Text, "%"):
+		// applies whatever the padding: the percent heuristic looks at the whole parenthesised group
+		return "style-attr-url-with-percent"
 	case p.Pad == "srcset-ws":
 		return "srcset-descriptor-after-tab-or-newline"
 	case p.Pad != "" && p.Attr == "srcset":
